@@ -66,7 +66,9 @@ func parseRoute(node *treeNode, path string, method string, info *RouteInfo) (pa
 		return 0, errors.New("invalid method " + method + " for routePath: " + path)
 	}
 
-	var paramNameList []string
+	// Check every fragment before the tree is touched:
+	// a rejected routePath must not leave nodes behind that change how other routes are found.
+	var paramNameList, nodeNameList []string
 	var length, left, right int = len(path), 0, 0
 	for ; right <= length; right++ {
 		if right < length && path[right] != '/' {
@@ -76,7 +78,7 @@ func parseRoute(node *treeNode, path string, method string, info *RouteInfo) (pa
 			// skip empty fragment
 		} else if path[left+1:right] == "*" {
 			paramNameList = append(paramNameList, routeParamAny)
-			node = node.nextNodeOrNew(routeParamAny)
+			nodeNameList = append(nodeNameList, routeParamAny)
 			break
 		} else if path[left+1] == ':' {
 			paramName := path[left+2 : right]
@@ -84,11 +86,14 @@ func parseRoute(node *treeNode, path string, method string, info *RouteInfo) (pa
 				return 0, errors.New("invalid fragment :" + paramName + " in routePath: " + path)
 			}
 			paramNameList = append(paramNameList, paramName)
-			node = node.nextNodeOrNew(routeParam)
+			nodeNameList = append(nodeNameList, routeParam)
 		} else {
-			node = node.nextNodeOrNew(path[left+1 : right])
+			nodeNameList = append(nodeNameList, path[left+1:right])
 		}
 		left = right
+	}
+	for _, name := range nodeNameList {
+		node = node.nextNodeOrNew(name)
 	}
 
 	if _, ok = node.next[methodTag]; ok {
